@@ -501,6 +501,192 @@ pub fn eval_case(case: &Case, tally: &mut Tally) -> Vec<Violation> {
     out
 }
 
+
+// ------------------------------------------------------------------------------------------------ nested .luaurc files
+
+/// Several requiring files of one run, each below a different set of `.luaurc` files: "darklua will attempt to find the
+/// nearest `.luaurc` configuration file to each file it processes" (documentation of both require modes). The answer for
+/// one file must not depend on which other files were processed before it in the same run.
+#[derive(Clone, Debug, Serialize, Deserialize)]
+pub struct NestedCase {
+    /// "path" or "luau"
+    mode: String,
+    /// per directory of NESTED_DIRS: 0 = no `.luaurc`, 1 = one defining `lib`, 2 = one defining only `other`
+    rc: Vec<u8>,
+    /// the sources in the order they are given to the run
+    order: Vec<String>,
+    /// bundle in place, or convert_require to the path mode without sources
+    convert: bool,
+}
+
+const NESTED_DIRS: &[(&str, &str)] = &[("", "rootlib"), ("src", "srclib"), ("src/sub", "sublib")];
+const NESTED_FILES: &[&str] = &["src/a.luau", "src/sub/b.luau", "src/sub/deep/c.luau"];
+
+fn join_dir(dir: &str, name: &str) -> String {
+    if dir.is_empty() {
+        name.to_owned()
+    } else {
+        format!("{}/{}", dir, name)
+    }
+}
+
+fn nested_expected(case: &NestedCase, file: &str) -> Result<String, ()> {
+    // nearest: the deepest directory of NESTED_DIRS that is an ancestor of the file and holds a `.luaurc`
+    let mut nearest: Option<usize> = None;
+    for (i, (dir, _)) in NESTED_DIRS.iter().enumerate() {
+        let is_ancestor = dir.is_empty() || file.starts_with(&format!("{}/", dir));
+        if is_ancestor && case.rc[i] != 0 {
+            nearest = Some(i);
+        }
+    }
+    match nearest {
+        Some(i) if case.rc[i] == 1 => Ok(format!("{}/x.luau", join_dir(NESTED_DIRS[i].0, NESTED_DIRS[i].1))),
+        _ => Err(()),
+    }
+}
+
+pub fn eval_nested(case: &NestedCase) -> Vec<Violation> {
+    let mut out = Vec::new();
+    let mut fail = |what: String| {
+        out.push(Violation {
+            finding: None,
+            summary: format!(
+                "{}\n--- nested .luaurc files: {} mode, {}; .luaurc files {:?} (each aliases `lib` to a folder next to it, or only `other`); sources given in the order {:?}; every file is `return require(\"@lib/x\")`",
+                what,
+                case.mode,
+                if case.convert { "convert_require to the path mode" } else { "bundled in place" },
+                NESTED_DIRS.iter().zip(&case.rc).filter(|(_, rc)| **rc != 0).map(|((d, l), rc)| format!("{} -> {}", join_dir(d, ".luaurc"), if *rc == 1 { format!("lib: {}", l) } else { "other only".to_owned() })).collect::<Vec<_>>(),
+                case.order
+            ),
+            replay: json!({"kind": "nested", "case": serde_json::to_value(case).unwrap_or_default()}),
+        });
+    };
+    let r = Resources::from_memory();
+    let mut files: BTreeSet<String> = BTreeSet::new();
+    for (i, (dir, lib)) in NESTED_DIRS.iter().enumerate() {
+        let x = format!("{}/x.luau", join_dir(dir, lib));
+        let _ = r.write(&x, &marker_content(&x));
+        files.insert(x);
+        let o = format!("{}/x.luau", join_dir(dir, "otherlib"));
+        let _ = r.write(&o, &marker_content(&o));
+        files.insert(o);
+        match case.rc[i] {
+            1 => {
+                let _ = r.write(&join_dir(dir, ".luaurc"), &json!({"aliases": {"lib": lib, "other": "otherlib"}}).to_string());
+            }
+            2 => {
+                let _ = r.write(&join_dir(dir, ".luaurc"), &json!({"aliases": {"other": "otherlib"}}).to_string());
+            }
+            _ => {}
+        }
+    }
+    for f in NESTED_FILES {
+        let _ = r.write(f, "return require(\"@lib/x\")\n");
+        files.insert((*f).to_owned());
+    }
+    let config = if case.convert {
+        format!("{{rules: [{{rule: 'convert_require', current: {{name: '{}'}}, target: {{name: 'path'}}}}]}}", case.mode)
+    } else {
+        format!("{{rules: [], bundle: {{require_mode: {{name: '{}'}}}}}}", case.mode)
+    };
+    let _ = r.write(".darklua.json", &config);
+    let res = r.clone();
+    let order = case.order.clone();
+    let run = guarded(move || {
+        let mut tree = darklua_core::WorkerTree::default();
+        for f in &order {
+            tree.add_source(f, None);
+        }
+        let result = tree.process(&res, Options::new("src"));
+        let errors: Vec<String> = tree.collect_errors().iter().map(|e| e.to_string()).collect();
+        (result.map_err(|e| e.to_string()), errors)
+    });
+    let errors = match run {
+        Err(p) => {
+            fail(format!("PANIC: {}", p));
+            return out;
+        }
+        Ok((Err(e), _)) => vec![e],
+        Ok((Ok(()), errors)) => errors,
+    };
+    for f in NESTED_FILES {
+        let expected = nested_expected(case, f);
+        let text = r.get(f).unwrap_or_default();
+        let untouched = text == "return require(\"@lib/x\")\n";
+        let named_in_error = errors.iter().any(|e| e.contains(f));
+        match expected {
+            Err(()) => {
+                // no `lib` alias for this file: an error naming it (convert_require may instead leave the require and warn)
+                if !(named_in_error || (case.convert && untouched)) {
+                    fail(format!("the nearest .luaurc of {} defines no alias `lib`, but the file was processed without an error naming it; it now reads:\n{}", f, text));
+                }
+            }
+            Ok(target) => {
+                if named_in_error {
+                    fail(format!("the nearest .luaurc of {} aliases `lib` so that the require names {}, but the run reported {:?}", f, target, errors));
+                    continue;
+                }
+                if case.convert {
+                    let parsed = match parser::parse(text.as_bytes(), Mode::Luau) {
+                        Ok(p) => p,
+                        Err(e) => {
+                            fail(format!("the converted {} does not parse: {}\n{}", f, e, text));
+                            continue;
+                        }
+                    };
+                    let mut new_require = None;
+                    if let Some(ast::Stat::Return(exprs)) = parsed.block.stats.first().map(|s| &s.stat) {
+                        if let Some(ast::Expr::Call(_, args, _)) = exprs.first() {
+                            if let Some(ast::Expr::Str(s)) = args.first() {
+                                new_require = Some(String::from_utf8_lossy(s).into_owned());
+                            }
+                        }
+                    }
+                    let env = Env { mode: ModeCfg::Path { mfn: "init".to_owned(), sources: vec![] }, config_dir: String::new(), luaurc: vec![] };
+                    match new_require {
+                        None => fail(format!("the converted {} is not `return require(<string>)`:\n{}", f, text)),
+                        Some(req) => {
+                            let got = resolve(&env, &req, f, &files);
+                            if got.as_deref().ok() != Some(target.as_str()) {
+                                fail(format!("the nearest .luaurc of {} makes the require name {}, but convert_require wrote require({:?}) which names {:?}", f, target, req, got));
+                            }
+                        }
+                    }
+                } else {
+                    let marker = parser::parse(text.as_bytes(), Mode::Luau).ok().and_then(|parsed| {
+                        let mut it = Interp::new(Mode::Luau);
+                        it.fuel = 100_000;
+                        match it.run_chunk(&parsed.block, "bundle").ok()?.first() {
+                            Some(Value::Str(s)) => Some(String::from_utf8_lossy(s).into_owned()),
+                            _ => None,
+                        }
+                    });
+                    if marker.as_deref() != Some(target.as_str()) {
+                        fail(format!("the nearest .luaurc of {} makes the require name {}, but the bundled file returns {:?}:\n{}", f, target, marker, text));
+                    }
+                }
+            }
+        }
+    }
+    out
+}
+
+fn nested_cases() -> Vec<NestedCase> {
+    let mut out = Vec::new();
+    let perms: [[usize; 3]; 6] = [[0, 1, 2], [0, 2, 1], [1, 0, 2], [1, 2, 0], [2, 0, 1], [2, 1, 0]];
+    for mode in ["path", "luau"] {
+        for convert in [false, true] {
+            for code in 0..27u32 {
+                let rc = vec![(code % 3) as u8, (code / 3 % 3) as u8, (code / 9) as u8];
+                for p in &perms {
+                    out.push(NestedCase { mode: mode.to_owned(), rc: rc.clone(), order: p.iter().map(|i| NESTED_FILES[*i].to_owned()).collect(), convert });
+                }
+            }
+        }
+    }
+    out
+}
+
 // ------------------------------------------------------------------------------------------------ enumeration
 
 fn envs(tier: Tier) -> Vec<Env> {
@@ -684,14 +870,16 @@ pub fn run(tier: Tier) -> Report {
         files is created (each file returns its own path), with and without decoy files at the places other readings of the rules would look and with and without directories named like the \
         candidates; the requiring file is bundled and the bundle executed by the reference interpreter: it must return the marker of the first existing candidate in the documented order, or \
         bundling must report an error when none exists / the source is unknown / the file found is neither Lua nor data. For every resolved case convert_require to 4 target modes is run and the \
-        rewritten require must resolve (by the reference resolver and by bundling under the target mode) to the same file. non-trivial = cases where the resolved file is not the first file in sorted order"
+        rewritten require must resolve (by the reference resolver and by bundling under the target mode) to the same file. Nested .luaurc files: 3 requiring files at 3 depths x every assignment of \
+        {none, aliases `lib`, aliases only `other`} to the .luaurc of the 3 directories x the 6 orders in which the sources are given to ONE run x {path, luau} x {bundled in place, convert_require}: each \
+        file must get the `lib` of its nearest .luaurc (or an error naming it when that one has no `lib`), whatever was processed before it. non-trivial = cases where the resolved file is not the first file in sorted order"
         .to_owned();
     report.assumptions = vec![
         "files are in-memory resources (a path may be a file and a directory prefix at once, which a real file system cannot hold); path handling is lexical".to_owned(),
         "a require whose string already ends in .lua/.luau is only looked up as given (documentation lists the candidates for an extensionless example only)".to_owned(),
         "a requiring file outside the working directory (../init.luau, ../up.luau) or named by an absolute path (/abs/src/main.lua): the relative path from it back into the working directory needs the directory's name, which lexical in-memory paths do not have, so convert_require may leave such a require unchanged (it warns); a require it does rewrite is judged like any other".to_owned(),
         "a `..` segment directly after a source/alias name (leaving the aliased directory) is not a redundant segment and is not judged".to_owned(),
-        "precedence between darklua sources/aliases and .luaurc aliases of the same name, nested .luaurc files, and `@self` from a file that is not a module-folder file are not specified and not judged".to_owned(),
+        "precedence between darklua sources/aliases and .luaurc aliases of the same name, and `@self` from a file that is not a module-folder file are not specified and not judged".to_owned(),
         "the roblox require mode needs a Rojo sourcemap and is outside this property's statement".to_owned(),
     ];
     let all = cases(tier);
@@ -716,6 +904,14 @@ pub fn run(tier: Tier) -> Report {
         total.conversions_changed += t.conversions_changed;
         report.violations.extend(v);
     }
+    let nested = nested_cases();
+    let nested_violations: Vec<Vec<Violation>> = nested.par_iter().map(eval_nested).collect();
+    report.set("nested_luaurc_runs", nested.len() as u64);
+    total.evaluations += (nested.len() * NESTED_FILES.len()) as u64;
+    total.not_first += nested.iter().filter(|c| c.rc.iter().filter(|x| **x != 0).count() > 1).count() as u64;
+    for v in nested_violations {
+        report.violations.extend(v);
+    }
     report.evaluations = total.evaluations;
     report.distinct_nontrivial = total.not_first;
     report.set("resolved", total.resolved);
@@ -729,6 +925,25 @@ pub fn run(tier: Tier) -> Report {
 }
 
 pub fn replay(v: &serde_json::Value) -> i32 {
+    if v["kind"] == "nested" {
+        let case: NestedCase = match serde_json::from_value(v["case"].clone()) {
+            Ok(c) => c,
+            Err(e) => {
+                println!("cannot read the case: {}", e);
+                return 2;
+            }
+        };
+        let violations = eval_nested(&case);
+        for v in &violations {
+            println!("{}", v.summary);
+        }
+        return if violations.is_empty() {
+            println!("the case passes");
+            0
+        } else {
+            1
+        };
+    }
     let case: Case = match serde_json::from_value(v["case"].clone()) {
         Ok(c) => c,
         Err(e) => {
